@@ -1156,6 +1156,13 @@ def fact(n):
 
 def opt_none(y=None):
     return 1 if y is None else 2
+
+
+# closures created by CPython BEFORE compilation (their free variables live in real closure cells; the names
+# n / f / g also exist as module globals above)
+pre_adder = mk_adder(%(k1)d + 2)
+pre_scaler = mk_scaler(%(k2)d + 1)
+pre_comp = compose(mk_adder(%(k3)d), mk_scaler(%(k4)d))
 """
 
 
@@ -1229,7 +1236,10 @@ class DiffGen:
         if c == 8:
             self.tag("closure")
             v = rng.random()
-            if v < 0.4:
+            if v < 0.3:
+                self.tag("closure-made-before-compilation")
+                return rng.choice(["pre_adder(%s)", "pre_scaler(%s)", "pre_comp(%s)", "pre_adder(%s, y=2)"]) % self.I(d - 1)
+            if v < 0.5:
                 self.tag("closure-local-default")
                 return "mk_adder(%s)(%s)" % (self.I(d - 1), self.I(d - 1))
             if v < 0.7:
@@ -1631,6 +1641,8 @@ DIFF_CORPUS = [
     (["return dig((gadd(1, 2, 3, 4, k=5, zz=6), gpos(1, 2, d=4), P(2).get(1, 2, 3, k=4, q=5), Q(2).get(k=1)))"], "call shapes"),
     (["a, *b, c = [1, 2, 3, 4]", "return dig((a, b, c, [*b, a], (*b, *b)))"], "starred"),
     (["return dig((mk_counter(3)(4), mk_adder(1)(2, 3), apply2(lambda x: x * 3 + 1, 2), compose(mk_adder(1), lambda t: t * 2)(5)))"], "closures"),
+    (["return dig((pre_adder(1), pre_adder(2, y=5), pre_scaler(3), pre_scaler(3, m=4), pre_comp(6), n, total))"],
+     "closures made before compilation; their free variables shadow module globals of the same name"),
     (["return dig((1 < 3 > 2, 2 >= 2 > 1 > 0, 0 < 5 < 3, 1 < 2 <= 2, 1 < 2 > 3, 4 > 1 < 3 != 3, 3 if 1 > 2 else 4))"], "chained comparisons / if-expression"),
     (["return dig((clamp(9, 0, 5), clamp(-2, 0, 5), classify(Q(1)), classify(P(1)), classify(True), classify(3), classify(None), classify([1]), fact(4)))"],
      "constant if / isinstance / recursion"),
